@@ -13,7 +13,7 @@ from .project import BADINT, outcome, polygon_vertices
 from .worlds import MISSING
 
 PHYS = [5, 15, 30, 50, 80, 120, 170]
-DEPTH_NAMES = {"shoc_standard": [("z_centre", "k_centre"), ("z_grid", "k_grid")],
+DEPTH_NAMES = {"shoc_standard": [("z_centre", "k_centre"), ("z_grid", "k_grid"), ("z_centre_sed", "k_centre_sed"), ("z_grid_sed", "k_grid_sed")],
                "shoc_simple": [("zc", "k"), ("zcsed", "ksed")]}
 GENERIC_NAMES = [("depth", "k"), ("depth_w", "kw")]
 
@@ -37,7 +37,8 @@ def make_world(conv: str, rng: random.Random, *, two: bool, K: int, twin: bool =
         w = GW.structured_world(conv, 2, 2, shape="skew")
     names = DEPTH_NAMES.get(conv, GENERIC_NAMES)
     depths = []
-    for k, (name, dim) in enumerate(names[: (2 if two else 1)]):
+    # (SHOC standard files with sediment layers carry four depth coordinates; data variables sit on the first two)
+    for k, (name, dim) in enumerate(names[: (len(names) if (two and conv == "shoc_standard" and K % 2 == 0) else 2 if two else 1)]):
         depths.append(depth_coord(name, dim, K + k, rng.random() < .5, rng.random() < .5, rng.random() < .7,
                                   rng.random() < .5, same_name_dim=(conv not in DEPTH_NAMES and rng.random() < .5)))
     if twin and conv not in DEPTH_NAMES:
